@@ -483,6 +483,10 @@ func (w *World) computeSig(root *ssa.Function) funcSig {
 					owner = n.Obj().Name()
 				}
 				sig.Ops = append(sig.Ops, opSig{K: "store", T: owner + "." + fieldName(fa.X.Type(), fa.Field), Args: []string{w.sigString(fa.X, 2), w.sigString(x.Val, 2)}, at: x.Pos()})
+			case *ssa.Lookup:
+				if _, isMap := x.X.Type().Underlying().(*types.Map); isMap && x.CommaOk {
+					sig.Ops = append(sig.Ops, opSig{K: "lookup", T: "map", Args: []string{w.sigString(x.X, 2), w.sigString(x.Index, 2)}, at: x.Pos()})
+				}
 			case *ssa.MapUpdate:
 				sig.Ops = append(sig.Ops, opSig{K: "mapupdate", T: "map", Args: []string{w.sigString(x.Map, 2), w.sigString(x.Key, 2), w.sigString(x.Value, 2)}, at: x.Pos()})
 			}
